@@ -110,10 +110,10 @@ theorem aggregate_filter (o : Oracles) (ao : AggOracles) (env : Env) (pfx : Stri
     exactly one row per trace the selector matches: some span of the trace satisfies the conditions and the
     matched spans pass the aggregate comparison. -/
 theorem selector_correct (o : Oracles) (ao : AggOracles) (hp : PermInv ao) (c : Ctx) (d : TraceDb)
-    (hr : c.rndMax = 0) (hcons : DurConsistent d) (pfx : String) (s : Selector) (op : ScriptOp) (rest : Script) (X : Sel)
+    (hcons : DurConsistent (d.seen o c)) (pfx : String) (s : Selector) (op : ScriptOp) (rest : Script) (X : Sel)
     (h : simpleSel c pfx ((s, op) :: rest) = .ok X) (hs : SelOk s) (env : Env) (tr : Bytes) :
-    (∃ r ∈ evalSelG o ao (d.toDb c) true env X, r.get "trace_id" = .str tr) ↔ selMatches o ao c d s tr = true := by
-  have := (simple_traceRows o ao hp c d hr hcons pfx s op rest X h hs [] env).mem tr
+    (∃ r ∈ evalSelG o ao (d.toDb c) true env X, r.get "trace_id" = .str tr) ↔ selMatches o ao c (d.seen o c) s tr = true := by
+  have := (simple_traceRows o ao hp c d hcons pfx s op rest X h hs [] env).mem tr
   have hX : X.addCols [] = X := by obtain ⟨ws, d', c', f, j, p, w, g, h', ob, l⟩ := X; simp [Sel.addCols]
   rwa [hX] at this
 
@@ -150,13 +150,13 @@ theorem tree_means_script (f : Selector → Bool) (script : Script) (gs : List (
     — some selector group joined by `&&` has all its selectors matching the trace, where a selector matches
     iff some span inside the time window satisfies the boolean combination of its conditions and the matched
     spans pass its aggregate comparison. -/
-theorem plan_correct (o : Oracles) (ao : AggOracles) (hp : PermInv ao) (c : Ctx) (d : TraceDb) (hr : c.rndMax = 0)
-    (hcons : DurConsistent d) (script : Script) (X : Sel) (h : rootSel c script = .ok X)
+theorem plan_correct (o : Oracles) (ao : AggOracles) (hp : PermInv ao) (c : Ctx) (d : TraceDb)
+    (hcons : DurConsistent (d.seen o c)) (script : Script) (X : Sel) (h : rootSel c script = .ok X)
     (hok : ∀ p ∈ script, SelOk p.1) (env : Env) :
     ((evalSelG o ao (d.toDb c) true env X).map (fun r => r.get "trace_id")).Nodup ∧
     ∀ tr, (∃ r ∈ evalSelG o ao (d.toDb c) true env X, r.get "trace_id" = .str tr) ↔
-      traceMatches o ao c d script tr = true := by
-  have hT := (root_traceSel o ao hp c d hr hcons script X h hok).rows [] env
+      traceMatches o ao c (d.seen o c) script tr = true := by
+  have hT := (root_traceSel o ao hp c d hcons script X h hok).rows [] env
   have hX : X.addCols [] = X := by obtain ⟨ws, d', c', f, j, p, w, g, h', ob, l⟩ := X; simp [Sel.addCols]
   rw [hX] at hT
   exact ⟨hT.nodup, hT.mem⟩
@@ -182,18 +182,18 @@ def limit_most_recent_full : Prop :=
     the unlimited result: no trace twice, at most `limit` traces, every kept trace is described by the script,
     and when fewer than `limit` are returned every described trace is returned. -/
 theorem window_and_limit_partial (o : Oracles) (ao : AggOracles) (hp : PermInv ao) (c : Ctx) (d : TraceDb)
-    (hr : c.rndMax = 0) (hcons : DurConsistent d) (script : Script) (X : Sel) (h : rootSel c script = .ok X)
+    (hcons : DurConsistent (d.seen o c)) (script : Script) (X : Sel) (h : rootSel c script = .ok X)
     (hok : ∀ p ∈ script, SelOk p.1) (env : Env) (hlim : 0 < c.limit) :
     (∀ tr, traceMatches o ao c (d.inWindow c) script tr = traceMatches o ao c d script tr) ∧
     evalSelG o ao (d.toDb c) true env (indexLimit c X) = (evalSelG o ao (d.toDb c) true env X).take c.limit.toNat ∧
     ((evalSelG o ao (d.toDb c) true env (indexLimit c X)).map (fun r => r.get "trace_id")).Nodup ∧
     (evalSelG o ao (d.toDb c) true env (indexLimit c X)).length ≤ c.limit.toNat ∧
     (∀ r ∈ evalSelG o ao (d.toDb c) true env (indexLimit c X),
-        ∃ tr, r.get "trace_id" = .str tr ∧ traceMatches o ao c d script tr = true) ∧
+        ∃ tr, r.get "trace_id" = .str tr ∧ traceMatches o ao c (d.seen o c) script tr = true) ∧
     ((evalSelG o ao (d.toDb c) true env (indexLimit c X)).length < c.limit.toNat →
-        ∀ tr, traceMatches o ao c d script tr = true →
+        ∀ tr, traceMatches o ao c (d.seen o c) script tr = true →
           ∃ r ∈ evalSelG o ao (d.toDb c) true env (indexLimit c X), r.get "trace_id" = .str tr) := by
-  have hT := (root_traceSel o ao hp c d hr hcons script X h hok).rows [] env
+  have hT := (root_traceSel o ao hp c d hcons script X h hok).rows [] env
   have hX : X.addCols [] = X := by obtain ⟨ws, d', c', f, j, p, w, g, h', ob, l⟩ := X; simp [Sel.addCols]
   rw [hX] at hT
   have hl : evalSelG o ao (d.toDb c) true env (indexLimit c X) = (evalSelG o ao (d.toDb c) true env X).take c.limit.toNat := by
@@ -235,7 +235,7 @@ def sel0 : Selector := ⟨some (.leafOp termA .or (.leaf termD)), some ⟨.count
 def script0 : Script := [(sel0, .and), (⟨some (.leaf termD), none⟩, .none)]
 
 example : PermInv ⟨fun _ _ _ _ => true⟩ := fun _ _ _ _ _ _ => rfl
-example : DurConsistent ⟨[]⟩ := fun a ha => by simp at ha
+example : DurConsistent { attrs := [] } := fun a ha => by simp at ha
 example : ctx0.rndMax = 0 := rfl
 example : (match rootSel ctx0 script0 with | .ok _ => true | .error _ => false) = true := by decide +kernel
 example : (match plan ctx0 script0 with | .ok _ => true | .error _ => false) = true := by decide +kernel
@@ -245,7 +245,7 @@ example : ∀ p ∈ script0, SelOk p.1 := by
   intro p hp
   simp only [script0, List.mem_cons, List.mem_singleton, List.not_mem_nil, or_false] at hp
   rcases hp with rfl | rfl
-  · refine ⟨⟨_, rfl, ?_, by decide +kernel⟩⟩
+  · refine ⟨⟨_, rfl, ?_⟩⟩
     intro t ht t' ht' hkk
     simp only [termsOf, List.mem_cons, List.mem_singleton, List.not_mem_nil, or_false] at ht ht'
     rcases ht with rfl | rfl <;> rcases ht' with rfl | rfl
@@ -253,7 +253,7 @@ example : ∀ p ∈ script0, SelOk p.1 := by
     · exact absurd hkk hk
     · exact absurd hkk.symm hk
     · rfl
-  · refine ⟨⟨_, rfl, ?_, by decide +kernel⟩⟩
+  · refine ⟨⟨_, rfl, ?_⟩⟩
     intro t ht t' ht' _
     simp only [termsOf, List.mem_singleton] at ht ht'
     rw [ht, ht']
